@@ -81,13 +81,13 @@ Definition G_consume (prev : option arec) (new : list Z) (t u : Z) (uu : Z) (L :
   G_set TExtend new t u x (olive uu (G_del (sup_of prev new L) x o)).
 
 Lemma pspec_consume_tail s p prev new ttl rec :
-  DInv s -> (ttl <= 0 \/ NoDup new) ->
+  DInv s ->
   let s4 := d_supersede s p prev new in
   let s5 := d_setaddrs s4 p new ttl TExtend in
   pspec s (d_store_signed s5 p rec) p
         (G_consume prev new ttl (unix (d_now s + ttl)) (unix (d_now s)) (lents (unix (d_now s)) (d_store s) p)) (Some rec).
 Proof.
-  intros HD Hnd. cbn zeta. pose proof (pspec_supersede s p prev new HD) as P4.
+  intros HD. cbn zeta. pose proof (pspec_supersede s p prev new HD) as P4.
   set (s4 := d_supersede s p prev new) in *. set (U := unix (d_now s)) in *.
   set (L := lents U (d_store s) p) in *.
   pose proof (ps_inv _ _ _ _ _ P4) as HD4. pose proof (ps_frame _ _ _ _ _ P4) as [Hn4 _].
@@ -100,10 +100,7 @@ Proof.
       + change (zmem x []) with false. cbn iota. rewrite <- E. now rewrite olive_idem.
       + change (zmem x []) with false. cbn iota. reflexivity.
     - rewrite <- En in *. assert (Hne : new <> []) by (rewrite En; discriminate).
-      assert (PS : pspec s4 (d_setaddrs s4 p new ttl TExtend) p (G_set TExtend new ttl (unix (d_now s4 + ttl)))
-                         (vcert (unix (d_now s4)) (d_store s4) p)).
-      { destruct Hnd as [Ht|Hnd]; [now apply pspec_setaddrs_nonpos|now apply pspec_setaddrs]. }
-      rewrite Hn4 in PS.
+      pose proof (pspec_setaddrs s4 p new ttl TExtend HD4 Hne) as PS. rewrite Hn4 in PS.
       eexists. exact (pspec_trans s s4 _ p _ _ _ _ P4 PS). }
   destruct P5 as [c5 P5]. set (s5 := d_setaddrs s4 p new ttl TExtend) in *.
   pose proof (pspec_store_signed s5 p rec (ps_inv _ _ _ _ _ P5)) as P6.
@@ -126,7 +123,7 @@ Qed.
 Definition latest_of (C : option arec) : Z := match C with Some c => rseq c | None => 0 end.
 
 Lemma consume_ds_spec s p seq id addrs ttl :
-  DInv s -> (ttl <= 0 \/ NoDup (clean_addrs addrs)) ->
+  DInv s ->
   let U := unix (d_now s) in
   let L := lents U (d_store s) p in
   let C := vcert U (d_store s) p in
@@ -136,7 +133,7 @@ Lemma consume_ds_spec s p seq id addrs ttl :
        pspec s (fst (d_consume s p seq id addrs ttl)) p
              (G_consume C (clean_addrs addrs) ttl (unix (d_now s + ttl)) U L) (Some (mkR p seq id addrs)).
 Proof.
-  intros HD Hnd. cbn zeta. unfold d_consume.
+  intros HD. cbn zeta. unfold d_consume.
   destruct (load s p true false) as [[s1 pr] inc] eqn:HL.
   destruct (pspec_load s p true false s1 pr inc HD HL) as [P1 [Epr Einc]]. subst pr inc. cbn [daddrs dcert].
   destruct (load_keeps s p true false s1 _ _ HD HL) as [Hn1 HK1].
@@ -151,7 +148,7 @@ Proof.
   rewrite Hn1 in *. fold U in HK2, Hprev, P2. rewrite (proj2 (HK1 p)) in Hprev, P2. fold C in Hprev, P2. subst prev.
   split; [reflexivity|].
   pose proof (ps_inv _ _ _ _ _ P2) as HD2.
-  pose proof (pspec_consume_tail s2 p C (clean_addrs addrs) ttl (mkR p seq id addrs) HD2 Hnd) as P6. cbn zeta in P6.
+  pose proof (pspec_consume_tail s2 p C (clean_addrs addrs) ttl (mkR p seq id addrs) HD2) as P6. cbn zeta in P6.
   rewrite Hn2 in P6. fold U in P6. rewrite (proj1 (HK2 p)), (proj1 (HK1 p)) in P6. fold L in P6.
   pose proof (pspec_trans s s1 s2 p _ _ _ _ P1 P2) as P12.
   pose proof (pspec_trans s s2 _ p _ _ _ _ P12 P6) as PT. cbn beta in PT. fold U in PT.
@@ -290,8 +287,8 @@ Lemma dstep_consume a s p seq id ttl bad l :
 Proof.
   intros HA HD HR Hop. unfold dstep_ok. cbn [d_step a_step]. destruct bad.
   { split; [exact HA|split; [exact HD|split; [exact HR|split; [reflexivity|apply from_old_refl]]]]. }
-  destruct Hop as [Hop|[Hseq [Hok Hnd]]]; [discriminate|].
-  pose proof (consume_ds_spec s p seq id l ttl HD Hnd) as DS. cbn zeta in DS.
+  destruct Hop as [Hop|[Hseq Hok]]; [discriminate|].
+  pose proof (consume_ds_spec s p seq id l ttl HD) as DS. cbn zeta in DS.
   pose proof HR as [Hn HRp]. pose proof (proj2 (HRp p)) as HC.
   unfold a_consume. rewrite HC. set (C := vcert (unix (d_now s)) (d_store s) p) in *.
   assert (Econd : match C with Some r => seq <? rseq r | None => false end = (seq <? latest_of C)).
